@@ -21,6 +21,8 @@ def _is_equal(left: Any, right: Any) -> bool:
             all(_is_equal(val, right[key]) for key, val in left.items())
     if isinstance(left, Schema) != isinstance(right, Schema):
         return False
+    if isinstance(left, float) and isinstance(right, float) and (left != left) and (right != right):
+        return True  # both nan: a schema pinned to nan equals itself
     return bool(left == right)
 
 
